@@ -56,7 +56,7 @@ try:
     json.dump(ev, open(evpath, "w"), indent=1)
 except Exception as e:
     print("could not annotate evidence:", e)
-if nrep or p.returncode != 0 or "TSAN-PASS-DONE" not in out:
+if nrep or p.returncode != 0 or "TSAN-PASS-DONE" not in out or "SHARED-IMAGE-STILL-REFERENCED" in out:
     rp = os.path.join(VERIF, "replays", "C16"); os.makedirs(rp, exist_ok=True)
     rfile = os.path.join(rp, "tsan-report.txt")
     open(rfile, "w").write("check C16\nkey c16-tsan-data-race\nspace tsan\ncase %s\ndetail %d ThreadSanitizer report(s), exit %d; first lines:\n%s\n" % (rounds, nrep, p.returncode, txt[:3000]))
